@@ -195,5 +195,7 @@ void solver_t::more_precise(const scalar_t epsilon_factor)
 {
     assert(0.0 < epsilon_factor && epsilon_factor < 1.0);
 
-    parameter("solver::epsilon") = parameter("solver::epsilon").value<scalar_t>() * epsilon_factor;
+    // NB: the precision must stay strictly positive (repeated multiplications can underflow to zero)!
+    const auto epsilon           = parameter("solver::epsilon").value<scalar_t>() * epsilon_factor;
+    parameter("solver::epsilon") = std::max(epsilon, std::numeric_limits<scalar_t>::min());
 }
